@@ -673,15 +673,17 @@ impl<T> TooDee<T> {
     {
         assert!(index <= self.num_rows);
         let mut iter = data.into_iter();
-        if self.num_rows == 0 {
-            self.num_cols = iter.len();
-        } else {
-            assert_eq!(self.num_cols, iter.len());
+        // `self` is left untouched until nothing before the shift can panic any more
+        // (`iter.len()`, the length check and `reserve()` all can).
+        let num_cols = iter.len();
+        if self.num_rows != 0 {
+            assert_eq!(self.num_cols, num_cols);
         }
+        let num_rows = self.num_rows;
         
-        self.reserve(self.num_cols);
+        self.reserve(num_cols);
 
-        let start = index * self.num_cols;
+        let start = index * num_cols;
         let len = self.data.len();
 
         unsafe {
@@ -691,16 +693,22 @@ impl<T> TooDee<T> {
             // Alternative (less performant) approaches would be:
             // - append the new row to the array and use `slice.rotate...()` to shuffle everything into place.
             // - store the new row data in a temporary location before shifting the memory and inserting the row.
+            // The dimensions are cut back to the rows before `index` together with the length, so
+            // that the array is still consistent if `iter.next()` panics.
             self.data.set_len(start);
+            self.num_rows = index;
+            if index == 0 {
+                self.num_cols = 0;
+            }
             
             let mut p = self.data.as_mut_ptr().add(start);
             // shift everything to make space for the new row
-            let suffix = p.add(self.num_cols);
+            let suffix = p.add(num_cols);
             ptr::copy(p, suffix, len - start);
             
             // Iterates exactly `self.num_cols` times. The loop is counted rather than bounded by
             // `p < suffix` because all pointers are equal when `T` is zero-sized.
-            for _ in 0..self.num_cols {
+            for _ in 0..num_cols {
                 if let Some(e) = iter.next() {
                     ptr::write(p, e);
                     p = p.add(1);
@@ -712,12 +720,13 @@ impl<T> TooDee<T> {
             
             debug_assert!(iter.next().is_none(), "iterator not exhausted");
 
-            self.data.set_len(len + self.num_cols);
+            self.data.set_len(len + num_cols);
         }
 
-        // update the number of rows
-        if self.num_cols > 0 {
-            self.num_rows += 1;
+        // restore the dimensions, now including the new row
+        if num_cols > 0 {
+            self.num_cols = num_cols;
+            self.num_rows = num_rows + 1;
         }
 
     }
